@@ -130,6 +130,24 @@ def check(ck):
     okd = {A.norm(c.args[0]) for c in ds if c.args} == {"self.config_path", "self.metadata_config_path"}
     ck.ob(R1, fsi.key(None, "paths-used"), okd, "data and metadata sources are rooted at the configured paths" if okd else
           "the data / metadata sources are not built from config_path / metadata_config_path", fsi.where())
+    # an option derived from another option (metadata path defaults to the data path) must see
+    # the FINAL value of that option, i.e. the same definitions that reach the store into self.<field>
+    finals = {}
+    for st in fsi.stmts(ast.Assign):
+        if len(st.targets) == 1 and A.dotted(st.targets[0]) and A.dotted(st.targets[0]).startswith("self.") and isinstance(st.value, ast.Name):
+            finals[st.value.id] = st
+    for st in fsi.stmts(ast.Assign):
+        tgt = st.targets[0]
+        if not isinstance(tgt, ast.Name):
+            continue
+        for n in ast.walk(st.value):
+            if isinstance(n, ast.Name) and n.id in finals and n.id != tgt.id and isinstance(n.ctx, ast.Load):
+                fin = finals[n.id]
+                same = all(fsi.df.same_defs(n.id, a, b) for a in fsi.nodes(st) for b in fsi.nodes(fin))
+                ck.ob(R2, fsi.key(st, "derived-from-final:" + n.id), same,
+                      "%s is derived from the final value of %s" % (tgt.id, n.id) if same else
+                      "%s is derived from %s before the explicit argument / default for %s is applied: with config path A and argument path=B "
+                      "the derived option still points at A" % (tgt.id, n.id, n.id), fsi.where(st))
     sbi = FA(ck, "storage_base.StorageBackendBase.__init__")
     mc = [c for c in sbi.calls("MemoryCache")]
     okm = len(mc) == 1 and [A.norm(a) for a in mc[0].args] == ["memory_cache_mb"]
